@@ -253,7 +253,7 @@ static size_t _GD_DoRaw(DIRFILE *restrict D, gd_entry_t *restrict E, off64_t s0,
 
   /* We need to seek if we zero padded to get the file->pos in the right place
    */
-  if (ns > 0 || zero_pad)
+  if (ns > 0 || (zero_pad && s0 >= 0))
     /* This will open the file if it's not open already */
     if (_GD_Seek(D, E, s0, GD_FILE_READ)) {
       free(databuffer);
